@@ -22,7 +22,7 @@ V = os.path.dirname(os.path.dirname(os.path.abspath(__file__)))
 LEAF_JANET = "(janet_checktype({x}, JANET_NIL) || janet_checktype({x}, JANET_BOOLEAN) || janet_checktype({x}, JANET_NUMBER) || janet_checktype({x}, JANET_STRING) || janet_checktype({x}, JANET_SYMBOL) || janet_checktype({x}, JANET_KEYWORD))"
 
 CYCLES = [
- {'name': 'marshal', 'file': 'marsh.c', 'link': ['wrap.c'],
+ {'name': 'marshal', 'file': 'marsh.c', 'link': ['wrap.c'], 'replay': {'kind': 'janet', 'script_file': 'c19_marshal_deep.janet', 'timeout': 240},
   'remove_bodies': 'unmarshal_one.*|janet_unmarshal.*|janet_marshal|janet_marshal_(size|int64|int|ptr|byte|bytes|abstract)|janet_env_lookup.*',
   'depth': '(flags & 0xFFFF)', 'limit': 'JANET_RECURSION_GUARD', 'nanbox': False,
   'hooks': [dict(name='marshal', ret='void', params='void *p, JanetMarshalContext *ctx', depth='(ctx->flags & 0xFFFF)', rank=4)],
@@ -41,7 +41,7 @@ CYCLES = [
     'marshal_one': [dict(name='proto-edge-no-increment', file='marsh.c', find='marshal_one(st, janet_wrap_table(t->proto), flags + 1);', replace='marshal_one(st, janet_wrap_table(t->proto), flags);', expect='C19')],
     'marshal_one_def': [dict(name='subdef-no-increment', file='marsh.c', find='marshal_one_def(st, def->defs[i], flags + 1);', replace='marshal_one_def(st, def->defs[i], flags);', expect='C19')],
   }},
- {'name': 'unmarshal', 'file': 'marsh.c', 'link': ['wrap.c'],
+ {'name': 'unmarshal', 'file': 'marsh.c', 'link': ['wrap.c'], 'replay': {'kind': 'janet', 'script_file': 'c19_unmarshal_deep.janet', 'timeout': 240},
   'remove_bodies': 'marshal_one.*|janet_marshal.*|janet_unmarshal|janet_unmarshal_(ensure|int|size|int64|ptr|byte|bytes|abstract.*|u32s)|janet_env_lookup.*',
   'depth': '(flags & 0xFFFF)', 'limit': 'JANET_RECURSION_GUARD', 'nanbox': False,
   'hooks': [dict(name='unmarshal', ret='void *', params='JanetMarshalContext *ctx', depth='(ctx->flags & 0xFFFF)', rank=4)],
@@ -64,7 +64,7 @@ CYCLES = [
     'unmarshal_one_def': [dict(name='no-stackcheck-def', file='marsh.c', find='    int flags) {\n    MARSH_STACKCHECK;\n    MARSH_EOS(st, data);\n    if (*data == LB_FUNCDEF_REF) {', replace='    int flags) {\n    MARSH_EOS(st, data);\n    if (*data == LB_FUNCDEF_REF) {', expect='C19')],
     'unmarshal_one_abstract': [dict(name='hook-context-same-depth', file='marsh.c', find='JanetMarshalContext context = {NULL, st, flags + 1, data, at};', replace='JanetMarshalContext context = {NULL, st, flags, data, at};', expect='C19')],
   }},
- {'name': 'gcmark', 'file': 'gc.c', 'link': ['wrap.c'],
+ {'name': 'gcmark', 'file': 'gc.c', 'link': ['wrap.c'], 'replay': {'kind': 'janet', 'script_file': 'c19_gc_deep.janet', 'timeout': 400},
   'remove_bodies': 'janet_collect|janet_sweep|janet_clear_memory|janet_gcalloc|janet_deinit_block',
   'depth': '((int64_t) JANET_RECURSION_GUARD - (int64_t) depth)', 'limit': 'JANET_RECURSION_GUARD', 'global_depth': 'depth = nd_u32();', 'nanbox': False, 'restore': 'depth',
   # abstract gcmark hooks and the fiber's event callback (MARK event) are external code that re-enters through janet_mark only
@@ -92,7 +92,7 @@ CYCLES = [
     'janet_mark_funcenv': [dict(name='direct-fiber-edge', file='gc.c', find='janet_mark(janet_wrap_fiber(env->as.fiber));', replace='janet_mark_fiber(env->as.fiber);', expect='C19')],
     'janet_mark': [dict(name='no-depth-decrement', file='gc.c', find='    if (depth) {\n        depth--;', replace='    if (depth) {', expect='C19')],
   }},
- {'name': 'destructure', 'file': 'specials.c', 'link': ['wrap.c'],
+ {'name': 'destructure', 'file': 'specials.c', 'link': ['wrap.c'], 'replay': {'kind': 'janet', 'script': '(dofile "/verif/design-probes/repro/c19_deep_destructure.janet")\n', 'timeout': 240},
   'remove_bodies': 'janetc_fn|janetc_while|janetc_if|janetc_do|janetc_upscope|janetc_break|janetc_quasiquote|quasiquote|janetc_splice|janetc_quote|janetc_unquote|janetc_varset',
   'depth': '((int64_t) JANET_RECURSION_GUARD - (int64_t) c->recursion_guard)', 'limit': 'JANET_RECURSION_GUARD', 'nanbox': False,
   'cycle_pre': 'JanetCompiler vc_c; vc_c.recursion_guard = nd_int(); c = &vc_c;', 'restore': 'c->recursion_guard',
@@ -186,6 +186,8 @@ def gen_cycle(c):
              'assumes': ['helpers outside the unit return arbitrary values; pointers given to the entry member are arbitrary (pointer checks are off in these units)']}
         if m.get('self_ok'):
             u['assumes'].append('%s: direct self-recursion at equal depth is accepted because %s' % (m['name'], m['self_ok']))
+        if c.get('replay'):
+            u['replay'] = c['replay']
         if c.get('mutants', {}).get(m['name']):
             u['mutants'] = c['mutants'][m['name']]
         units.append(u)
